@@ -99,6 +99,7 @@ func handle(line string) (res string) {
 	}
 	v := udp.NewVerifAcks(uint32(p0))
 	var b strings.Builder
+	b.WriteString("ok ")
 	observe(&b, v)
 	for _, op := range ops {
 		v.Add(op[0], op[1])
